@@ -302,6 +302,8 @@ def cargo_build(bins, release=True, extra_env=None, timeout=3000):
     h, target = _harness_dir()
     lock = os.path.join(h, "Cargo.lock")
     src_lock = os.path.join(REPO, "Cargo.lock")
+    if not os.path.exists(src_lock):
+        src_lock = "/repo/Cargo.lock"      # a scratch worktree has no (untracked) lock file
     if not os.path.exists(lock):
         # start from the repository's lock so that nothing needs resolving online
         with open(lock, "w") as fh:
